@@ -136,19 +136,31 @@ def _gen_op(r, k):
         return {"op": k, "form": r.pick(["int", "pair", "pairs", "output_shape"]), "w": a(10),
                 "mode": r.pick(["constant", "constant", "edge"]) if r.chance(0.8) else
                 r.fork("mode").pick(["reflect", "wrap", "symmetric", "maximum", "linear_ramp"]),
-                "wide": r.fork("wide").chance(0.1), "rebind": r.pick(["copy", "inplace"])}
+                "wide": r.fork("wide").chance(0.1), "rebind": r.pick(["copy", "inplace"]),
+                # the in-place variant ALSO executed directly on the working dataset - which may be a
+                # NumPy view of an earlier source (result of indexing): the source must stay put
+                "direct": r.fork("direct").chance(0.3)}
     if k == "crop":
         return {"op": k, "axes": r.pick(["none", "int", "tuple"]), "ax": a(), "w": a(10),
-                "stop_form": a(), "rebind": r.pick(["copy", "inplace"])}
+                "stop_form": a(), "rebind": r.pick(["copy", "inplace"]),
+                # the in-place variant ALSO executed directly on the working dataset - which may be a
+                # NumPy view of an earlier source (result of indexing): the source must stay put
+                "direct": r.fork("direct").chance(0.3)}
     if k == "bin":
         return {"op": k, "axes": r.pick(["none", "int", "tuple"]), "ax": a(), "f": a(),
                 "fform": r.pick(["int", "tuple", "list"]), "reducer": r.pick(["sum", "mean", "SUM"]),
-                "rebind": r.pick(["copy", "inplace"])}
+                "rebind": r.pick(["copy", "inplace"]),
+                # the in-place variant ALSO executed directly on the working dataset - which may be a
+                # NumPy view of an earlier source (result of indexing): the source must stay put
+                "direct": r.fork("direct").chance(0.3)}
     if k == "resample":
         return {"op": k, "axes": r.pick(["none", "int", "tuple"]), "ax": a(), "o": a(),
                 "by": r.pick(["out_shape", "factors", "factor_scalar"]),
                 "fac": [r.pick([0.5, 1.0, 1.5, 2.0, 0.75]) for _ in range(5)],
-                "rebind": r.pick(["copy", "inplace"])}
+                "rebind": r.pick(["copy", "inplace"]),
+                # the in-place variant ALSO executed directly on the working dataset - which may be a
+                # NumPy view of an earlier source (result of indexing): the source must stay put
+                "direct": r.fork("direct").chance(0.3)}
     if k == "getitem":
         return {"op": k, "index": _raw_index(r), "rebind": r.chance(0.7)}
     if k == "rejected":
@@ -376,6 +388,7 @@ def run(plan):
     kinds = []
     n_mut = [0]
     tag = [""]
+    cur_op = [{}]
     if plan.get("steered"):
         bump(probes, "pairs_steered")
 
@@ -406,6 +419,7 @@ def run(plan):
         on a copy; results must agree. Returns (copy_result, inplace_result) or None."""
         # both variants start from layout-identical inputs (a fancy-indexed array may be
         # non-C-contiguous while its copy is, which changes float summation order by an ulp)
+        orig = ds
         ds = ds.copy()
         before = snap(ds)
         twin = ds.copy()
@@ -445,6 +459,28 @@ def run(plan):
         invariants(r_copy, f"{opname}:copy")
         invariants(twin, f"{opname}:inplace")
         keep(ds, tag[0])
+        if cur_op[0].get("direct"):
+            # third execution: in place on the working object itself (no private buffer)
+            try:
+                call(orig, True)
+            except Exception as e:
+                viol("op_raised", f"{opname} (in-place, directly on the working dataset) raised {e!r}",
+                     f"op_raised:{opname}:direct:{type(e).__name__}")
+                return r_copy, twin
+            bump(probes, "inplace_directly_on_working_dataset")
+            if orig.array.base is not None or any(
+                    np.shares_memory(orig.array, o.array) for o, _, _ in kept_src):
+                bump(probes, "inplace_directly_on_a_view_of_a_kept_source")
+            c = snap(orig)
+            d = snap_diff(b, c, ignore=("name", "origin_dt", "sampling_dt", "bytes"))
+            same = orig.array.shape == twin.array.shape and bool(np.allclose(
+                np.asarray(orig.array), np.asarray(twin.array), rtol=1e-5, atol=1e-8, equal_nan=True))
+            if d or not same:
+                viol("inplace_vs_copy", f"{opname}: in place on the working dataset vs on its copy "
+                     f"differ in {d or ['values']}", f"inplace_direct:{opname}:{','.join(d) or 'values'}")
+            invariants(orig, f"{opname}:direct")
+            recheck_kept()
+            return r_copy, orig
         return r_copy, twin
 
     ds = None
@@ -469,6 +505,7 @@ def run(plan):
             k = op["op"]
             kinds.append(k)
             tag[0] = f"op#{n_op}:{k}"
+            cur_op[0] = op
             if kept_src:
                 recheck_kept()
             if k == "create":
